@@ -813,7 +813,7 @@ func randomMapTrace(id int, seed int64, steps int, out *json.Encoder, fixed *map
 		case x < w[9]:
 			if g := freeSlot(); g != 0 && len(r.roots) > 0 {
 				rr := r.roots[rng.Intn(len(r.roots))]
-				if profile == "reload" && r.watch != nil && rng.Intn(3) == 0 {
+				if (profile == "reload" || ((profile == "general" || profile == "versions") && rng.Intn(2) == 0)) && r.watch != nil && rng.Intn(3) == 0 {
 					// as after a restart: the shared cache is cold, it did not witness the writes (the objects it handed out before
 					// stay watched)
 					size := 1000
